@@ -82,9 +82,10 @@ CHECKS = {
    note="MarkovCracker.next_guess/save_session/load_session trusted (C10's subject); A-PICKLE; rely/guarantee sequentialisation of the keyboard thread"),
  'C11': dict(level='other', technique=TECH + "; guesser side and file round trip by a bounded stand-in",
    text="find_omen_level (trainer tables) and OmenScorer.parse (IP/CP/LN tables) each return ln + ip + the sum of the transition levels of every n-gram and -1 exactly when the length is "
-        "out of range or an n-gram is absent, for every string and every table (recursive spec functions); lemma level_agree: with corresponding tables the two coincide. "
+        "out of range or an n-gram is absent, for every string and every table (recursive spec functions); lemma level_agree: with corresponding tables the two coincide; "
+        "the IP / CP writers of the trainer (statement slices) and the IP / CP / LN readers of guesser and scorer are verified against the file as a list of lines. "
         "Bounded: trainer level == scorer level == level at which the real MarkovCracker emits the string, through the real files.",
-   note="strings as an uninterpreted sort with length/char/slice axioms; table correspondence (writers/readers, smoothing) only bounded; guesser generator is C10's subject"),
+   note="strings as an uninterpreted sort; split/rstrip/int/str identities between a written and a read line only bounded; smoothing, EP/LN writers, config not under contract; guesser generator is C10's subject"),
  'C10': dict(level='other', technique=TECH + " for the level search, string formatting and first-level search; exact enumeration by a labelled bounded stand-in",
    text="Deductive for all inputs: _find_cp returns the highest level in [bottom, min(top, max_level)] at which the prefix has transitions (exactly that list) and (None, None) exactly when "
         "none exists; _format_guess is the initial n-gram followed by the letters the parse tree points at; _find_first_object returns the lowest populated level in 0..max_level inclusive. "
